@@ -165,7 +165,9 @@ def rule_B2(ctx):
                 if isinstance(s, ast.Try):
                     d, t = block(s.body, dirty, in_loop)
                     for h in s.handlers:
-                        block(h.body, d or dirty, in_loop)
+                        # a handler runs because a statement of the body raised; when the body is a single call, that call did not
+                        # complete, and the callee's own validate-before-mutate obligation says it changed nothing
+                        block(h.body, dirty if len(s.body) == 1 else (d or dirty), in_loop)
                     dirty = d or dirty
                     block(s.finalbody, dirty, in_loop)
                     continue
@@ -369,7 +371,6 @@ N1_REASONS = {
     ('bits:Bits._findall_lsb0', 'start <= end'): 'as _find_lsb0',
     ('bits:Bits._rfind_lsb0', 'start <= end'): 'as _find_lsb0',
     ('bits:Bits._find_lsb0', 'bitstring.options.lsb0'): 'G1: the lsb0 variants are installed exactly when the option is true',
-    ('bits:Bits._findall_lsb0', 'bitstring.options.lsb0'): 'G1',
     ('bits:Bits._rfind_lsb0', 'bitstring.options.lsb0'): 'G1',
     ('bits:Bits._readue', 'codenum == 0'): 'local arithmetic: leadingzeros == 0 gives (1 << 0) - 1 == 0',
     ('bits:Bits._readtoken', 'length is not None'): "only caller is __main__.main, which passes b1.__len__()",
@@ -406,6 +407,12 @@ def rule_N1(ctx):
     for f, a in sites:
         txt = norm(a.test)
         fk = ctx.rk(f.key)
+        is_gen = any(isinstance(y, (ast.Yield, ast.YieldFrom)) for y in own_walk(f.node))
+        if is_gen and 'options.' in txt:
+            # a generator body runs when it is consumed, not when the (mode-switched) method was called
+            r.fail(f.key, f'assert {txt}', 'this assertion about a module option sits in a generator: the option can be changed between the call '
+                   'that created the generator and its consumption, and the user then sees AssertionError', loc=f.loc(a))
+            continue
         if (fk, txt) in N1_REASONS:
             used.add((fk, txt))
             r.ok(f'{f.key}: {txt}', reason=True, sample={'instance': f.key, 'assert': txt, 'reason': N1_REASONS[(fk, txt)]})
